@@ -26,6 +26,7 @@ Everything else in the template is proof-only or assumed text (prelude,
 lemmas) and is copied unchanged.
 """
 import hashlib
+import json
 import os
 import re
 import shlex
@@ -36,6 +37,40 @@ from .rustscan import Source, Snippet, ScanError, norm_ws, code_mask, next_code,
 
 class TemplateError(Exception):
     pass
+
+
+_BINDER = re.compile(r"\blet\s+(?:mut\s+)?([a-z_][a-z0-9_]*)\b|\bfor\s+([a-z_][a-z0-9_]*)\s+in\b|\b(?:Some|Ok|Err)\(\s*(?:mut\s+|ref\s+)?([a-z_][a-z0-9_]*)\s*\)")
+
+
+def binders(text):
+    """ordered list of the local names a function binds (let / for / Some(x) / Ok(x) / Err(x)), code only"""
+    mask = code_mask(text)
+    out = []
+    for mm in _BINDER.finditer(text):
+        if mask[mm.start()] != CODE:
+            continue
+        nm = mm.group(1) or mm.group(2) or mm.group(3)
+        if nm in ('mut', 'ref', '_'):
+            continue
+        out.append(nm)
+    return out
+
+
+def rename_map(base, cur):
+    """a consistent old->new renaming when the two binder lists have the same shape, else None"""
+    if base is None or len(base) != len(cur) or base == cur:
+        return None
+    m = {}
+    for a, b in zip(base, cur):
+        if a != b:
+            if m.get(a, b) != b:
+                return None
+            m[a] = b
+    # a new name must not collide with an unrenamed old one
+    for a, b in m.items():
+        if b in base and m.get(b) is None and b != a:
+            return None
+    return m
 
 
 class Gen:
@@ -96,6 +131,13 @@ class Unit:
         self.trusted = []        # trusted base scan
         self.lost_anchors = []   # proof hints whose anchor disappeared (hint skipped)
         self.canary_points = []  # (gen line index) where assert(false) may be inserted
+        self.binders = {}
+        self.binders_raw = {}
+        self.pending_replace_rename = {}
+        lp = os.path.join(os.path.dirname(template_path), 'locals.json')
+        base = json.load(open(lp)) if os.path.exists(lp) else {}
+        self.base_binders = base.get('after_rules', {})
+        self.base_binders_raw = base.get('raw', {})
         self.gen = Gen()
 
     def source(self, alias):
@@ -344,7 +386,7 @@ class Unit:
 
     # ------------------------------------------------------------------
     def _parse_fn_block(self, block):
-        spec = dict(requires=[], ensures=[], decreases=[], loops={}, closures={}, hints=[], replaces=[], chains=[])
+        spec = dict(requires=[], ensures=[], decreases=[], loops={}, closures={}, hints=[], replaces=[], chains=[], names=[])
         cur = None
         for ln in block:
             s = ln.strip()
@@ -372,6 +414,14 @@ class Unit:
                     ent = dict(where=kw, anchor=mm.group(1).replace('\\"', '"'), nth=int(mm.group(2) or 0), lines=[])
                     spec['hints'].append(ent)
                     cur = ent['lines']
+                elif kw == 'name':
+                    # //@name VAR "regex with one group": VAR is bound to the group's text in the function body; `@{VAR}` in
+                    # anchors and ghost text of this function is replaced by it (keeps hints independent of local names)
+                    mm = re.match(r'(\w+)\s+"((?:[^"\\]|\\.)*)"', rest)
+                    if not mm:
+                        raise TemplateError('bad name directive: %s' % rest)
+                    spec['names'].append((mm.group(1), mm.group(2).replace('\\"', '"')))
+                    cur = None
                 elif kw == 'atstart':
                     ent = dict(where='start', anchor=None, nth=0, lines=[])
                     spec['hints'].append(ent)
@@ -427,6 +477,15 @@ class Unit:
                 rules.append(r[1:])
             elif r.startswith('-') and r[1:] in rules:
                 rules.remove(r[1:])
+        # (replace anchors follow local renames too: binder lists are compared on the text before any rewrite)
+        rm0 = rename_map(self.base_binders_raw.get(path), binders(text))
+        self.binders_raw[path] = binders(text)
+        if rm0:
+            def rn0(t):
+                for a, b in rm0.items():
+                    t = re.sub(r'(?<![A-Za-z0-9_])' + re.escape(a) + r'(?![A-Za-z0-9_])', b, t)
+                return t
+            spec['replaces'] = [(rn0(o), rn0(n), w) for o, n, w in spec['replaces']]
         # --- function-specific textual replacements (logged) ---
         for old, new, why in spec['replaces']:
             cnt = text.count(old)
@@ -457,6 +516,34 @@ class Unit:
             text = R.r2_closure_params(text, log)
         if kv.get('r9'):
             text = R.r9_iter(text, log, kv['r9'].split(';'))
+        # --- local renames: hints are written against the locals' names at authoring time (units/<unit>/locals.json);
+        # if the function binds the same number of locals in the same order but under other names, the hints follow ---
+        cur_b = binders(text)
+        self.binders[path] = cur_b
+        rm = rename_map(self.base_binders.get(path), cur_b)
+        if rm:
+            def rn(t):
+                # outside string literals only ("nodes" the column family is not nodes the local)
+                parts = re.split(r'("(?:[^"\\]|\\.)*")', t)
+                for k in range(0, len(parts), 2):
+                    for a, b in rm.items():
+                        parts[k] = re.sub(r'(?<![A-Za-z0-9_@{])' + re.escape(a) + r'(?![A-Za-z0-9_])', b, parts[k])
+                return ''.join(parts)
+            def rn_anchor(t):
+                for a, b in rm.items():
+                    t = re.sub(r'(?<![A-Za-z0-9_@{])' + re.escape(a) + r'(?![A-Za-z0-9_])', b, t)
+                return t
+            for h in spec['hints']:
+                if h.get('anchor'):
+                    h['anchor'] = rn_anchor(h['anchor'])
+                h['lines'] = [rn(l) for l in h['lines']]
+            for ent in spec['loops'].values():
+                ent['lines'] = [rn(l) for l in ent['lines']]
+            spec['closures'] = {k: rn(v) for k, v in spec['closures'].items()}
+            spec['names'] = [(v, rn_anchor(rx)) for v, rx in spec['names']]
+            log.append(dict(rule='hint-rename', before=', '.join(sorted(rm)), after=', '.join(rm[k] for k in sorted(rm)),
+                            reason='locals renamed in the code; proof hints follow (contracts mention parameters only)'))
+            self.pending_replace_rename[path] = rn
         # --- split signature / body ---
         sn = Snippet(text)
         mfn = None
@@ -568,6 +655,26 @@ class Unit:
 
     def _splice_body(self, path, body, spec, log):
         """returns list of (line, tag) for the body with ghost text inserted."""
+        if spec.get('names'):
+            binds = {}
+            for var, rx in spec['names']:
+                mm = re.search(rx, body)
+                if mm:
+                    binds[var] = mm.group(1)
+                else:
+                    self.lost_anchors.append('%s: name %s: pattern %r not found' % (path, var, rx))
+
+            def sub(t):
+                for k, v in binds.items():
+                    t = t.replace('@{%s}' % k, v)
+                return t
+            for h in spec['hints']:
+                if h.get('anchor'):
+                    h['anchor'] = sub(h['anchor'])
+                h['lines'] = [sub(l) for l in h['lines']]
+            for ent in spec['loops'].values():
+                ent['lines'] = [sub(l) for l in ent['lines']]
+            spec['closures'] = {k: sub(v) for k, v in spec['closures'].items()}
         # hoist: `for PAT in EXPR {` -> `let NAME = EXPR; for PAT in NAME {` (names the iterator so that ghost
         # text before the loop can mention it; evaluation order unchanged)
         for n_, ent in sorted(spec['loops'].items()):
